@@ -1733,6 +1733,10 @@ func buildCache(typ reflect.Type, cache map[string][]int, parent []int) {
 				buildCache(typ, cache, index)
 			}
 		}
+		if old, ok := cache[field.Name]; ok && len(old) <= len(index) {
+			// a field declared at a shallower (or the same) depth shadows this one
+			continue
+		}
 		cache[field.Name] = index
 	}
 }
